@@ -423,6 +423,7 @@ func init() {
 			{H: "H_C07_RetrySurvivesSetKey", K: 48, U: 3, Prune: true, Preempt: 2, TimeoutSec: 1200},
 			{H: "H_C07_RestartOverlap", K: 40, U: 3, Prune: true, Preempt: 2, TimeoutSec: 1200},
 			{H: "H_C07_ResetDuringRetry", K: 48, U: 3, Prune: true, Preempt: 2, TimeoutSec: 1200},
+			{H: "H_C07_RemoveDelayRestart", K: 48, U: 3, Prune: true, Preempt: 2, Covers: 1, TimeoutSec: 1200},
 		},
 		Thorough: []Job{
 			{H: "H_C07_RetrySurvivesSetKey", K: 52, U: 3, Prune: true, Preempt: 4, TimeoutSec: 6000, QueryMs: 3000000},
@@ -494,6 +495,7 @@ func init() {
 			{H: "H_C09_NilCb", K: 24, U: 3, Prune: true, TimeoutSec: 900},
 			{H: "H_C09_StopStart", K: 40, U: 3, Prune: true, Preempt: 2, TimeoutSec: 900},
 			{H: "H_C09_Delivered", K: 80, U: 3, Prune: true, Preempt: 2, Covers: 1, TimeoutSec: 900},
+			{H: "H_C09_EarlyReleased", K: 40, U: 3, Prune: true, Preempt: 2, Covers: 1, TimeoutSec: 900},
 		},
 		Thorough: []Job{
 			{H: "H_C09_Overlap", K: 34, U: 3, Prune: true, Preempt: 4, TimeoutSec: 6000, QueryMs: 3000000},
